@@ -15,7 +15,13 @@ Inductive xi :=
 | XLoad (size base reg disp : Z)      (* emit_load: movzx / mov reg, [base + disp] *)
 | XStore (size reg base disp : Z)     (* emit_store: mov [base + disp], reg *)
 | XStoreImm (size base disp imm : Z)  (* emit_store_imm32: mov [base + disp], imm *)
-| XLockAdd (w reg base disp : Z).     (* lock add [base + disp], reg *)
+| XLockAdd (w reg base disp : Z)      (* lock add [base + disp], reg *)
+| XPush (r : Z)                       (* emit_push *)
+| XPop (r : Z)                        (* emit_pop *)
+| XRex (w r x b : Z)                  (* emit_rex: a lone REX prefix, applying to the instruction emitted next *)
+| XJccRel (code off : Z)              (* emit_direct_jcc: jcc over the next [off] bytes of code *)
+| XJmpPc (t : Z)                      (* emit_jmp: to the code of eBPF instruction t (displacement fixed up later: C03_jump_fixup) *)
+| XJccPc (code t : Z).                (* emit_jcc: conditionally to the code of eBPF instruction t *)
 
 Definition regs := Z -> Z.
 Definition rset (R : regs) (r v : Z) : regs := fun x => if x =? r then v else R x.
